@@ -13,7 +13,7 @@ import conv
 import gen as G
 import exercises as E
 
-NEW_KINDS = ['file_dfa_dfa', 'file_nfa_nfa', 'file_re_re', 'file_re_dfa', 'file_dfa_nfa', 'accrej_dfa', 'words_cfg', 'given_dfa', 'given_nfa']
+NEW_KINDS = ['compare', 'file_dfa_dfa', 'file_nfa_nfa', 'file_re_re', 'file_re_dfa', 'file_dfa_nfa', 'accrej_dfa', 'words_cfg', 'given_dfa', 'given_nfa']
 KINDS = E.KINDS + NEW_KINDS
 STREAM = E.STREAM
 
@@ -21,6 +21,8 @@ STREAM = E.STREAM
 def gen_cases(rng, n_per_kind, n_perturb):
     cases = E.gen_cases(rng, n_per_kind, n_perturb)
     for kind in NEW_KINDS:
+        if kind == 'compare':
+            continue
         for _ in range(n_per_kind):
             c = {'ex': kind, 'seed': rng.randrange(10 ** 9), 'perturb': n_perturb, 'length': rng.choice([3, 4])}
             sigma = rng.choice(['ab', 'a', 'ab'])
@@ -32,9 +34,35 @@ def gen_cases(rng, n_per_kind, n_perturb):
             elif kind == 'file_re_re':
                 c['r'] = G.random_re(rng, rng.randint(1, 4), 2)
             else:
-                c['G'] = E.nondegenerate_cfg(rng)
+                c['G'] = E.nondegenerate_cfg(rng) if rng.random() < 0.5 else chomsky_shaped_cfg(rng)
             cases.append(c)
+    # compare_languages itself on small word sets built in a given insertion order (the reported word is picked from a Python set)
+    pool = ['', 'a', 'b', 'c', 'aa', 'ab', 'ba', 'cc', 'abc']
+    for _ in range(40 * n_per_kind):
+        a1 = rng.sample(pool, rng.randint(0, 4))
+        a2 = rng.sample(pool, rng.randint(0, 4))
+        if rng.random() < 0.5 and '' not in a1:
+            a1.insert(rng.randint(0, len(a1)), '')
+        cases.append({'ex': 'compare', 'seed': rng.randrange(10 ** 9), 'perturb': 0, 'length': 3, 'A1': a1, 'A2': a2})
+    # grammars whose rules all have Chomsky shape although the grammar is not in normal form (the generator must still convert them)
+    for _ in range(2 * n_per_kind):
+        cases.append({'ex': 'words_cfg', 'seed': rng.randrange(10 ** 9), 'perturb': min(n_perturb, 2), 'length': 3, 'G': chomsky_shaped_cfg(rng)})
     return cases
+
+
+def chomsky_shaped_cfg(rng):
+    """every rule has the shape A -> BC | a | epsilon, but the grammar is not in Chomsky normal form: epsilon rules of other variables
+    than the start variable, the start variable on right-hand sides"""
+    V = ['S', 'A', 'B'][:rng.randint(2, 3)]
+    rules = []
+    for v in V:
+        for _ in range(rng.randint(1, 3)):
+            x = rng.random()
+            rules.append([v, [] if x < 0.3 else ([['T', rng.choice('ab')]] if x < 0.65 else [['V', rng.choice(V)], ['V', rng.choice(V)]])])
+    if not any(v == 'S' for v, _ in rules):
+        rules.insert(0, ['S', [['V', V[-1]], ['V', 'S']]])
+    rules.sort(key=lambda r: 0 if r[0] == 'S' else 1)
+    return G.mk_cfg(rules, 'S', extra_vars=V)
 
 
 # ----------------------------------------------------------------------------- worker side
@@ -42,6 +70,17 @@ def observe(c):
     if c['ex'] not in NEW_KINDS:
         return E.observe(c)
     from implutil import safe, ok
+    if c['ex'] == 'compare':
+        from gambatools.language_generator import compare_languages
+        s1, s2 = set(), set()
+        for w in c['A1']:
+            s1.add(w)
+        for w in c['A2']:
+            s2.add(w)
+        r = safe(compare_languages, s1, s2)
+        fb = list(r[1]) if ok(r) else None
+        return {'answers': [{'text': ' '.join(x or 'ε' for x in c['A1']), 'own': False, 'printed_ok': fb == [], 'out': '\n'.join(fb) if fb is not None else 'raised',
+                             'raised': None if ok(r) else r[1], 'parsed': {'words': c['A1']}, 'skip': False}], 'info': {'words': ' '.join(x or 'ε' for x in c['A2'])}, 'setup_error': None}
     import gambatools.notebook as NB
     import gambatools.automata_checker as AC
     from gambatools.dfa_algorithms import print_dfa, parse_dfa, dfa_accepts_word
@@ -245,6 +284,8 @@ def encode_answer(c, o, a, must_ok_for_own=True):
     X = a['parsed']
     if _undecidable(X):
         return '0'
+    if ex == 'compare':
+        return 'j_lang_eq (Some %s) (Some %s) %s false 10' % (E._words(c['A1'], sy), E._words(c['A2'], sy), p)
     if ex.startswith('file_') or ex in ('given_dfa', 'given_nfa', 'words_cfg'):
         if ex.startswith('file_'):
             _, ak, rk = ex.split('_')
@@ -302,7 +343,9 @@ def encode_feedback(c, o, a):
         return None      # a name used both as variable and as terminal: outside the grammar model (names are compared as strings)
     minimal = 'true'
     A1 = A2 = None
-    if ex in ('words_dfa', 'words_nfa', 'words_re', 'words_cfg'):
+    if ex == 'compare':
+        A1, A2 = '(Some %s)' % E._words(c['A1'], sy), '(Some %s)' % E._words(c['A2'], sy)
+    elif ex in ('words_dfa', 'words_nfa', 'words_re', 'words_cfg'):
         kind = {'words_dfa': 'dfa', 'words_nfa': 'nfa', 'words_re': 're', 'words_cfg': 'cfg'}[ex]
         A1 = _lang_term(kind, X, n, sy)
         A2 = _words_term(info['words'], sy if kind != 'cfg' else E._cfg_names())
